@@ -20,7 +20,7 @@ LEVEL_NOTE = ("Trusted: Lean kernel + 3 standard axioms; the hand-written model 
               "(split_correct) and text level (split_correct_text via the re-lexing lemma relex; lex_is_canonical for the "
               "converse). Duplicate entry/@string keys are C09's business and excluded by the generator here.")
 TECHNIQUE = "Lean 4 proof by induction over grammar derivations; differential correspondence on grammar-derived documents"
-RULE = ("corpus; seeded random derivations of G built as ASTs with constructive ground truth over an adversarial terminal "
+RULE = ("every case also: parse_string(text, parse_stack=[]) and parse_string(text) hold the splitter's blocks (common.entry_points_agree); corpus; seeded random derivations of G built as ASTs with constructive ground truth over an adversarial terminal "
         "alphabet (quote inside braces inside quotes, = , @ inside nested braces, escaped delimiters, '#', CRLF, blocks "
         "sharing a line, empty keys/values, non-ASCII letters and whitespace); bounded-exhaustive token strings (k tokens "
         "behind 6 prefixes). Compared: the model's blocks vs the real splitter's blocks (complete attributes). "
